@@ -282,7 +282,7 @@ def bounded_wire_names(tier, seed):
     var_defs = ", ".join(f"${n}: String" for n in WIRE_NAMES)
     var_use = ", ".join(f"{n}: ${n}" for n in WIRE_NAMES)
     q = (f"query Q($i: In, {var_defs}, $createdAfter: Stamp, $from_stamp: Stamp) {{ item(i: $i, {var_use}, createdAfter: $createdAfter, from_stamp: $from_stamp) "
-         f"{{ {' '.join(WIRE_NAMES)} e firstCopy: plain second_copy: plain left: sub {{ plain }} rightSide: sub {{ e }} }} }}"
+         f"{{ {' '.join(WIRE_NAMES)} e firstCopy: plain second_copy: plain left: sub {{ plain }} rightSide: sub {{ e }} Sub: sub {{ plain }} }} }}"
          + "".join(f" query {n} {{ item {{ plain }} }}" for n in ACRONYM_OPERATIONS))
     cases, fails = 0, []
     for snake in (True, False):
@@ -299,7 +299,7 @@ def bounded_wire_names(tier, seed):
             m.par = lambda v: "par:" + str(v)
             sys.modules["pyvc_stamp"] = m
             sent = []
-            data = {"item": dict({n: "v-" + n for n in WIRE_NAMES}, e="from", firstCopy="c1", second_copy="c2", left={"plain": "lp"}, rightSide={"e": "class"})}
+            data = {"item": dict({n: "v-" + n for n in WIRE_NAMES}, e="from", firstCopy="c1", second_copy="c2", left={"plain": "lp"}, rightSide={"e": "class"}, Sub={"plain": "sp"})}
 
             def handler(request):
                 sent.append(json.loads(request.content))
@@ -348,6 +348,9 @@ def bounded_wire_names(tier, seed):
                     bad.append(f"two-aliases-of-one-object-field-keep-their-own-selections: left.plain={lp!r} rightSide.e={re_!r}")
             except Exception as e:      # noqa
                 bad.append(f"two-aliases-of-one-object-field-keep-their-own-selections: {type(e).__name__}: {str(e)[:120]}")
+            # an alias whose mapped Python name is the name of the field it aliases (Sub: sub): the response key is still the alias
+            if "Sub" not in falias or getattr(getattr(item, falias.get("Sub", "Sub"), None), "plain", None) != "sp":
+                bad.append("alias-that-maps-back-to-the-field-name-keeps-its-response-key")
             for opname in ACRONYM_OPERATIONS:
                 key = opname.replace("_", "").lower()
                 meth = [a for a in dir(client) if a.replace("_", "").lower() == key]
